@@ -131,6 +131,12 @@ func (y *c08Sys) Letters(s *c08State) []engine.Letter {
 	// a deposit whose hook is a correctly signed tx of the recipient that immediately withdraws it again
 	// (two messages, the withdrawal first: every hook message's events have to reach the relayer)
 	ls = append(ls, engine.Letter{Name: "L1Deposit(to=alice,2uxx,data=hook[alice withdraws 1l2x; alice sends 1l2x to bob])", Data: c08L1Deposit{alice, 2, "uxx", []byte("HOOK:withdraw")}})
+	// …and one whose second message fails (she never holds that much): nothing of the hook may stay, the
+	// deposit is refunded — also when she already holds enough from earlier deposits for the first message
+	// (offered once she holds some: that is the case in which a half-applied hook would burn her own coins)
+	if s.w2.BK.GetBalance(s.c2, world.Addr("alice"), l2of("uxx")).Amount.IsPositive() {
+		ls = append(ls, engine.Letter{Name: "L1Deposit(to=alice,2uxx,data=hook[alice withdraws 1l2x; alice sends 1000000l2x to bob])", Data: c08L1Deposit{alice, 2, "uxx", []byte("HOOK:withdraw-then-fail")}})
+	}
 	for _, who := range []string{"alice", "bob"} {
 		ls = append(ls, engine.Letter{Name: fmt.Sprintf("L2Withdraw(%s,1l2x)", who), Data: c08L2Withdraw{who: who, denom: "uxx"}})
 	}
@@ -219,13 +225,17 @@ func (y *c08Sys) apply(s, c *c08State, data any) (string, *engine.Violation) {
 		}
 		return "ok", nil
 	case c08L1Deposit:
-		if string(d.data) == "HOOK:withdraw" {
+		if string(d.data) == "HOOK:withdraw" || string(d.data) == "HOOK:withdraw-then-fail" {
+			second := int64(1)
+			if string(d.data) == "HOOK:withdraw-then-fail" {
+				second = 1_000_000
+			}
 			// signed with the account number / sequence alice has on L2 right now (a later hook-bearing
 			// relay may make it stale: then the hook fails and the deposit is refunded, which is fine)
 			acc := s.w2.AK.GetAccount(c.c2, alice)
 			wmsg := opchildtypes.NewMsgInitiateTokenWithdrawal(alice.String(), alice.String(), sdk.NewInt64Coin(l2of("uxx"), 1))
 			key := world.SecpKey("alice")
-			smsg := banktypes.NewMsgSend(alice, world.Addr("bob"), sdk.NewCoins(sdk.NewInt64Coin(l2of("uxx"), 1)))
+			smsg := banktypes.NewMsgSend(alice, world.Addr("bob"), sdk.NewCoins(sdk.NewInt64Coin(l2of("uxx"), second)))
 			d.data = signHookTx(s.w2, []sdk.Msg{wmsg, smsg}, key, key.PubKey(), acc.GetAccountNumber(), acc.GetSequence(), c.c2.ChainID())
 		}
 		res := s.w1.Deliver(c.c1, ophosttypes.NewMsgInitiateTokenDeposit(alice.String(), 1, d.to, world.Coin(d.denom, d.amt), d.data))
